@@ -14,7 +14,7 @@ BP_NOTE = "Events are recorded at the component boundary under one mutex; bubble
 
 CHECKS = {
     "C01": ("rt", "exploration", "runtime differential monitor (canonical multiset comparison of decoded vs encoded telemetry over generated stream histories) under -race/checkptr",
-            "Every batch of PRNG-generated hostile stream histories (zero/boundary/colliding values, near-identical containers, schema evolution, 1-40 batches; batches of 32,768-65,535 attribute-bearing items; streams of 400-1,500 batches under a 4 MiB consumer memory limit) is encoded and decoded by the real Producer/Consumer and compared as a multiset of spans with their resource/scope; held = no difference, error or panic on the histories listed in the evidence.",
+            "Every batch of PRNG-generated hostile stream histories (zero/boundary/colliding values, near-identical containers, schema evolution, 1-40 batches; batches of 32,768-65,535 attribute-bearing items, also with an event and a link per item so that the related tables number more parents over the stream than 16 bits hold; streams of 400-1,500 batches under a 4 MiB consumer memory limit; wide batches in which every dictionary-encodable field of every record type is unique per item) is encoded and decoded by the real Producer/Consumer and compared as a multiset of spans with their resource/scope; held = no difference, error or panic on the histories listed in the evidence.",
             RT_NOTE, "§5.2, §6 C01"),
     "C02": ("rt", "exploration", "runtime differential monitor (canonical multiset comparison) over generated log stream histories, under -race/checkptr",
             "Same oracle as C01 for logs: bodies of every AnyValue type, same scope under several resources, unstable-sort ties.", RT_NOTE, "§5.2, §6 C02"),
@@ -22,19 +22,19 @@ CHECKS = {
             "Same oracle as C01 for metrics: all six metric kinds, zero counts, all-zero bucket lists, zero offsets, present-but-zero sum/min/max, exemplars; presence of optionals is part of the canonical form.",
             RT_NOTE + " Exp-histogram zeroThreshold is outside the Arrow data model and stripped.", "§5.2, §6 C03"),
     "C04": ("rt", "exploration", "runtime differential monitor over the producer option product and dictionary-state-machine histories, transitions observed through ProducerObserver",
-            "A default consumer decodes histories produced under the option product (thorough: all 10,080 trace option combinations) and under cardinality ramps that cross 255 / 65,535 / the limit in overflow and reset regimes; coverage gates require each transition kind to be observed.",
+            "A default consumer decodes histories produced under the option product (thorough: all 10,080 trace option combinations) and under cardinality ramps that cross 255 / 65,535 / the limit in overflow and reset regimes, wide batches in which all dictionary columns cross at once, and a 70-batch evolving stream (a replaced IPC stream every few batches) decoded under a memory limit four times its measured need; coverage gates require each transition kind to be observed.",
             RT_NOTE + " The 32->64-bit index transition (4e9 distinct values) is unreachable.", "§6 C04"),
-    "C05": ("bp", "exploration", "runtime monitor: boundary event log of the real processor (synctest bubbles + real-time stress), offline exactly-once / content / container-identity checker over unique item ids",
-            "Every item carries a unique id; the offline checker proves on each recorded execution that accepted items reach the next consumer exactly once with unchanged content and container identity (resource, scope, schema URLs, metric descriptor), across merges, splits and the shutdown flush.",
+    "C05": ("bp", "exploration", "runtime monitor: boundary event log of the real processor (synctest bubbles + real-time stress), offline exactly-once / content / container-identity checker over unique item ids; systematic single-delay enumeration over hook hits",
+            "Every item carries a unique id; the offline checker proves on each recorded execution that accepted items reach the next consumer exactly once with unchanged content and container identity (resource, scope, schema URLs, metric descriptor), across merges, splits and the shutdown flush; a delay-sweep layer re-runs a base scenario once per (hook hit, duration) with exactly that hit held back, and a third of all scenarios have callers cancel their own context on return.",
             BP_NOTE, "§5.4, §6 C05"),
     "C06": ("bp", "fault_enumeration", "runtime monitor: offline outcome checker over the boundary log; all 2^k export outcome assignments (k<=6) and cancellation at every distinct virtual instant enumerated in synctest bubbles",
-            "Each caller's return value and return instant are checked against the exports that actually carried its items, for every success/failure assignment of short export sequences and every cancellation instant of a base run, plus sampled scenarios; a call that never returns (virtual-time horizon or bubble deadlock) is a violation.",
+            "Each caller's return value and return instant are checked against the exports that actually carried its items, for every success/failure assignment of short export sequences, every cancellation instant of a base run and every single delayed hook hit of a base run (delay-sweep), plus sampled scenarios; a call that never returns (virtual-time horizon or bubble deadlock) is a violation.",
             BP_NOTE + " 'Promptly' is restated as zero virtual time after the context ended.", "§6 C06"),
     "C07": ("rt", "fault_enumeration", "runtime fault injection at the consumer boundary: exhaustive single payload-level faults + sampled combinations, panic/discard monitor, gap-aware follow-up batches",
-            "For each signal and prefix length every single payload-level fault of the target batch is applied (relabel to every type, drop, duplicate, move, reverse, rotate, empty, unknown/stale schema id) followed by two well-formed batches; no panic, no success with a discarded main record (present as main, or intact under another label only).",
+            "For each signal and prefix length every single payload-level fault of the target batch is applied (relabel to every type, drop, duplicate, move, reverse, rotate, empty, unknown/stale schema id) followed by two well-formed batches; no panic, no success with a discarded main record (present as main, or intact under another label only); a 300-batch stream in which nine batches of ten are damaged (relabelled payload, readers in step) and refused must still decode every intact batch completely under a 4 MiB memory limit.",
             "IPC byte splicing / bit flips are outside the property's domain and not generated; which payloads the consumer fed to its readers is inferred from the arrow_batch_records metric it publishes.", "§6 C07"),
     "C08": ("rt", "exploration", "runtime panic monitor (recover + child-process journal) over D-any producer histories and the oversize family, under -race/checkptr",
-            "Producer calls on everything pdata can hold (invalid UTF-8, extreme timestamps, degenerate lists, oversize batches before/between valid ones) must return; oversize inputs must be refused or, if accepted, round-trip.",
+            "Producer calls on everything pdata can hold (invalid UTF-8, extreme timestamps, degenerate lists, oversize batches before/between valid ones, wide batches that push every dictionary column across its index width in one build) must return; oversize inputs must be refused or, if accepted, round-trip.",
             "Process-fatal events are attributed through the per-case journal; sampled inputs.", "§6 C08"),
     "C09": ("bp", "exploration", "runtime monitor on the virtual clock (synctest): size bounds, per-item flush deadline from the enqueue instant, offline quiescence invariant over the event log",
             "On the component's own (virtual) clock every export is non-empty and within send_batch_max_size, every item is exported by accepted+timeout (or at the accept instant without timer), and at every quiescent instant each shard buffers fewer than send_batch_size items.",
@@ -43,25 +43,25 @@ CHECKS = {
             "Every exported batch is checked for a single metadata combination and matching client metadata; the recorded Consume(combo)->admitted|refused history of every scenario (bubble with a delay between map miss and lock, and real-time stress) is checked with porcupine against a set bounded by metadata_cardinality_limit.",
             BP_NOTE + " Porcupine timeout (2 min) => inconclusive.", "§6 C10"),
     "C11": ("bp", "exploration", "race detector + in-flight gauge monitor + synctest deadlock/leak detection + goroutine stack scan after Shutdown",
-            "In-flight exports per combination never exceed max_concurrency, Shutdown returns only after accepted items were exported and exports returned, no goroutine survives (bubble end / stack scan), no race report with a repository frame, no bubble deadlock.",
+            "In-flight exports per combination never exceed max_concurrency, Shutdown returns only after accepted items were exported and exports returned, no goroutine survives (bubble end / stack scan), no race report with a repository frame, no bubble deadlock; cancel-window and delay-sweep layers place cancellations and single delays at every instant / hook hit of a base run.",
             BP_NOTE + " The race detector only reports races that occur on executed, overlapping accesses.", "§6 C11"),
     "C12": ("rt", "exploration", "online stream monitor with an independent Arrow IPC reader per schema id and an IPC message-type scanner, run a second time by a lagging receiver over the batches as returned",
-            "Every emitted BatchArrowRecords of mixed-signal, schema-changing, dictionary-resetting histories is checked for batch-id continuity, main-first, unique payload types, non-empty related payloads, write-once and never-reused schema ids, and per-id IPC stream validity by an independent reader - online and again after the whole history was produced (batches kept as returned); GetAndResetStats() is polled between batches.",
+            "Every emitted BatchArrowRecords of mixed-signal, schema-changing, dictionary-resetting histories is checked for batch-id continuity, main-first, unique payload types, non-empty related payloads, write-once and never-reused schema ids, and per-id IPC stream validity by an independent reader - online and again after the whole history was produced (batches kept as returned); GetAndResetStats() is polled between batches; Produce calls that fail on their first IPC write (verif hook) must consume no batch id and leave the streams valid.",
             "The independent reader is arrow-go's ipc package (independent of the repository's Consumer, not of the Arrow library).", "§5.3, §6 C12"),
     "C13": ("rt", "exploration", "online dictionary monitor: recursive walk over every column decoded by an independent Arrow reader",
             "Every dictionary in every payload of unbounded-cardinality histories stays within min(configured limit, 2^index bits) across several overflow/reset cycles per limit; with dictionaries disabled none occurs.",
             "'Arbitrarily long' restated as several overflow/reset cycles; 32->64-bit transition unreachable.", "§6 C13"),
     "C14": ("rt", "exploration", "runtime monitor over a memory-limit ladder: error classification, published arrow_memory_inuse gauge, metamorphic monotonicity",
-            "Each encoded stream is decoded under 12 limits from 1 byte to 70 MiB around its measured peak: no panic, reported in-use within [0,limit], first refusal recognisable as ErrConsumerMemoryLimit, decoded batches equal the input, decoded prefix monotone in the limit.",
+            "Each encoded stream is decoded under 16 limits: 12 from 1 byte to 70 MiB around its measured peak plus 2^32, 2^63-1, 2^63 and 2^64-1: no panic, reported in-use within [0,limit], first refusal recognisable as ErrConsumerMemoryLimit, decoded batches equal the input, decoded prefix monotone in the limit.",
             "In-use memory is observed through the metric the consumer publishes at call boundaries.", "§6 C14"),
     "C15": ("rt", "fault_enumeration", "CheckedAllocator leak monitor + input immutability monitor, with encode errors injected at every verif hook site x hit",
             "Producer histories (schema updates, overflow/reset, natural oversize errors, and an error injected at each encode-path site on its 1st..8th hit) must leave the protobuf serialisation of every input unchanged and CurrentAlloc()==0 after Close.",
             "Injected errors stand for encode errors no valid input reaches; allocator accounting by arrow-go's CheckedAllocator.", "§6 C15"),
     "C16": ("rt", "exploration", "Go race detector over concurrently running independent streams + differential comparison with a sequential run",
-            "N producer/consumer pairs run concurrently on 16/4 Ps started on a barrier; zero race reports with a repository frame and every stream's per-batch canonical hash equals its sequential run.",
+            "N producer/consumer pairs (in every other round all consumers are built from one option list created once) run concurrently on 16/4 Ps started on a barrier; zero race reports with a repository frame and every stream's per-batch canonical hash equals its sequential run.",
             "The race detector only reports races on executed, overlapping accesses; overlap is measured and gated.", "§6 C16"),
     "C17": ("obf", "exploration", "runtime monitor: paired structural walk of input vs output + substitution-table (function / injective / length) monitor per processor instance",
-            "Hostile documents in encrypt_all and attribute-list modes for the three signals: structure, counts, order, types and every non-targeted byte preserved; the substitution table accumulated per processor instance is a length-preserving injection (all 256 one-byte strings enumerated; thorough: all 65,536 two-byte strings); one instance is also driven from 8 goroutines, and half of the documents are submitted under cancelled / part-way cancelled request contexts.",
+            "Hostile documents in encrypt_all and attribute-list modes for the three signals: structure, counts, order, types and every non-targeted byte preserved; the substitution table accumulated per processor instance is a length-preserving injection (all 256 one-byte strings enumerated; thorough: all 65,536 two-byte strings); one instance is also driven from 8 goroutines (in odd cases the FIRST use of fresh instances is concurrent), half of the list-mode instances leave encrypt_all at its default, and half of the documents are submitted under cancelled / part-way cancelled request contexts.",
             "Targeted set follows the code's behaviour; below listed keys and for named trace fields in list mode both 'unchanged' and 'F(original)' are accepted.", "§6 C17"),
     "C18": ("bp", "exploration", "runtime monitor: export context / cancellation observation + recorded spans (SpanRecorder), with enumerated merge positions and cancellation subsets",
             "Exports fed by >=2 request contexts must carry no caller value, never be cancelled by a caller, have no parent and link to/from every contributor; single-context exports are children of that request (callers end their own span on return in half of the scenarios); enumerated for 2..20 contributors with the differing context at every position and every cancellation subset of n<=4 contributors.",
